@@ -16,6 +16,8 @@ structure ScopeObj where
   pos : String
   /-- `obj.Type().Underlying()` is a `*types.Interface` -/
   isInterface : Bool
+  /-- the object is a declared type (`*types.TypeName`), not a variable or function of interface type -/
+  isType : Bool := true
   /-- the object is declared in the setup file -/
   inSetupFile : Bool
   /-- doc-bearing AST nodes enclosing the declaration, innermost first -/
@@ -135,10 +137,10 @@ def docHasConvergen (st : PState) (obj : ScopeObj) : Bool :=
   | some (_, g) => (st.docs.group g).any (fun c => matchConvergen c.text)
   | none => false
 
-/-- the selection rule of `findConvergenEntries`: an interface declared in the setup file that is
-named `Convergen` or whose doc has a `:convergen` line -/
+/-- the selection rule of `findConvergenEntries`: an interface type declared in the setup file that
+is named `Convergen` or whose doc has a `:convergen` line -/
 def isTargetIntf (intfName : String) (st : PState) (obj : ScopeObj) : Bool :=
-  obj.isInterface && obj.inSetupFile && (obj.name == intfName || docHasConvergen st obj)
+  obj.isType && obj.isInterface && obj.inSetupFile && (obj.name == intfName || docHasConvergen st obj)
 
 /-- what one iteration of the loop of `findConvergenEntries` does -/
 inductive EntryStep where
